@@ -82,6 +82,12 @@ M = [
  ("c17_euler_intrinsic", "pyins/transform.py", "    return Rotation.from_euler('xyz', rph, degrees=True).as_matrix()", "    return Rotation.from_euler('XYZ', rph, degrees=True).as_matrix()", ["C17"], "violation"),
  ("c17_small_angle_threshold", "pyins/_numba_integrate.py", "    if norm2 > 1e-6:", "    if norm2 > 1e-2:", ["C17"], "violation"),
  ("c17_threshold_ge", "pyins/_numba_integrate.py", "    if norm2 > 1e-6:", "    if norm2 >= 1e-6:", ["C17"], "quiet-or-drift"),
+ ("c15_coning_sixth", "pyins/strapdown.py", "        coning = np.cross(gyro[:-1], gyro[1:]) / 12", "        coning = np.cross(gyro[:-1], gyro[1:]) / 6", ["C15"], "violation"),
+ ("c15_sculling_order", "pyins/strapdown.py", "        sculling = (np.cross(gyro[:-1], accel[1:]) +\n                    np.cross(accel[:-1], gyro[1:])) / 12", "        sculling = (np.cross(gyro[:-1], accel[1:]) +\n                    np.cross(gyro[1:], accel[:-1])) / 12", ["C15"], "violation"),
+ ("c15_rotation_compensation_dropped", "pyins/strapdown.py", "    dv = accel_increment + sculling + 0.5 * np.cross(gyro_increment, accel_increment)", "    dv = accel_increment + sculling", ["C15"], "violation"),
+ ("c15_stamp_previous_sample", "pyins/strapdown.py", "    return pd.DataFrame(data=np.hstack((dt, theta, dv)), index=imu.index[1:],", "    return pd.DataFrame(data=np.hstack((dt, theta, dv)), index=imu.index[:-1],", ["C15"], "violation"),
+ ("c15_rate_coning_dt_power", "pyins/strapdown.py", "        coning = np.cross(a_gyro, b_gyro) * dt ** 2 / 12", "        coning = np.cross(a_gyro, b_gyro) * dt / 12", ["C15"], "violation"),
+ ("c15_refactor_half_b", "pyins/strapdown.py", "        gyro_increment = (a_gyro + 0.5 * b_gyro) * dt", "        gyro_increment = 0.5 * (gyro[:-1] + gyro[1:]) * dt", ["C15"], "quiet-or-drift"),
 ]
 
 
